@@ -33,6 +33,11 @@ SOURCES = {
                 "export function f(float a, float b) -> float\n{\n  return lerp(a, b, 0.5) + pick(1, 2, 3, 4, 5);\n}\n",
     # one source declares globals whose names another source uses as a parameter and as a local
     "globals_lb": "int level;\nint bias;\nexport function f(int a) -> int\n{\n  level = a;\n  bias = a * 2;\n  return level + bias;\n}\n",
+    # parameters without names (the compiler invents names for them)
+    "unnamed": "function q(int, int b) -> int\n{\n  return b * 2;\n}\nexport function f(int a, float) -> int\n{\n  return q(a, a + 1);\n}\n",
+    # two imported modules that both define helper(int) (different result types): whatever the verdict, it is the same every time
+    "twolibs": "import \"liba\";\nimport \"libb\";\nexport function f(int a) -> float\n{\n  return helper(a) + 1;\n}\n",
+    "twolibs_ok": "import \"liba\";\nimport \"libb\";\nexport function f(int a) -> float\n{\n  return onlya(a) + onlyb(a);\n}\n",
     "params_lb": "export function f(int level, int n) -> int\n{\n  int bias = n * 2;\n  bias += level;\n  return level + bias;\n}\n",
 }
 REQUESTS = [(n, {}) for n in SOURCES] + [(n, {"optimize": True}) for n in ("plain", "struct_a", "struct_b", "loop", "imp")] + \
@@ -72,7 +77,13 @@ def run(ctx, args):
                        env=dict(os.environ, PYTHONHASHSEED="0"))
     if not os.path.exists(os.path.join(cwd, "std.nslir")):
         raise common.Machinery("could not build std.nslir with nslc.py: " + p.stdout[-200:] + p.stderr[-200:])
-    seeds_single = [0, 1, 7, 42, 1234] if quick else [0, 1, 2, 3, 7, 42, 1234, 99999]
+    for name, text in (("liba", "export function helper(int a) -> int\n{\n  return a + 1;\n}\nexport function onlya(int a) -> int\n{\n  return a * 3;\n}\n"),
+                       ("libb", "export function helper(int a) -> float\n{\n  return a * 0.5;\n}\nexport function onlyb(int a) -> float\n{\n  return a * 0.25;\n}\n")):
+        open(os.path.join(cwd, name + ".nsl"), "w").write(text)
+        p = subprocess.run([sys.executable, str(ctx.repo / "nslc.py"), name + ".nsl", "-o", name + ".nslir"], cwd=cwd, capture_output=True, text=True, env=dict(os.environ, PYTHONHASHSEED="0"))
+        if not os.path.exists(os.path.join(cwd, name + ".nslir")):
+            raise common.Machinery(f"could not build {name}.nslir with nslc.py: " + p.stdout[-200:] + p.stderr[-200:])
+    seeds_single = [0, 1, 2, 5, 7, 42, 1234] if quick else [0, 1, 2, 3, 4, 5, 6, 7, 10, 42, 1234, 99999]
     seeds_long = [0, 7] if quick else [0, 1, 7, 42]
     worker = str(common.VERIF / "harness" / "c18_worker.py")
     jobs = []
